@@ -133,8 +133,67 @@ func evAngles(t *Tracer, deg float64) {
 	t.Emit(e, true)
 }
 
+// evObjHistory: one ExtendedSpatialID / TileXYZ / Point object driven through a random sequence of
+// its setters; the observable state is recorded after every step (the object as a state machine).
+func evObjHistory(t *Tracer, r Rng) {
+	n := 2 + r.Intn(8)
+	ops := make([]any, 0, n)
+	obs := make([]any, 0, n)
+	ext := &object.ExtendedSpatialID{}
+	tile := &object.TileXYZ{}
+	for i := 0; i < n; i++ {
+		v := r.smallInts(5, -50, 50)
+		if r.Chance(0.3) {
+			v[r.Intn(5)] = 0 // zeros: a setter that "skips unchanged / empty values" would keep the old field
+		}
+		switch r.Intn(9) {
+		case 0, 1, 2:
+			id := ID{maxI(0, v[0]) % 36, abs64(v[1]), abs64(v[2]), maxI(0, v[3]) % 36, v[4]}
+			err := ext.ResetExtendedSpatialID(id.String())
+			ops = append(ops, []any{"reset", id.H, id.X, id.Y, id.V, id.F})
+			if err != nil {
+				obs = append(obs, []int64{-1})
+				continue
+			}
+		case 3:
+			ext.SetX(v[0])
+			ops = append(ops, []any{"setx", v[0], 0, 0, 0, 0})
+		case 4:
+			ext.SetY(v[0])
+			ops = append(ops, []any{"sety", v[0], 0, 0, 0, 0})
+		case 5:
+			ext.SetZ(v[0])
+			ops = append(ops, []any{"setz", v[0], 0, 0, 0, 0})
+		case 6:
+			ext.SetZoom(v[0], v[1])
+			ops = append(ops, []any{"setzoom", v[0], v[1], 0, 0, 0})
+		case 7:
+			e1 := tile.SetHZoom(v[0])
+			tile.SetX(v[1])
+			ops = append(ops, []any{"tileh", v[0], v[1], 0, 0, 0})
+			_ = e1
+		default:
+			e1 := tile.SetVZoom(v[0])
+			tile.SetY(v[1])
+			tile.SetZ(v[2])
+			ops = append(ops, []any{"tilev", v[0], v[1], v[2], 0, 0})
+			_ = e1
+		}
+		fp := ext.FieldParams()
+		obs = append(obs, []int64{fp[0], fp[1], fp[2], fp[3], fp[4], tile.HZoom(), tile.X(), tile.Y(), tile.VZoom(), tile.Z()})
+	}
+	e := absW.ev("ObjHistory", map[string]any{"ops": ops})
+	e.O = "ok"
+	e.R = obs
+	t.Emit(e, true)
+}
+
 func driveMisc(t *Tracer, r Rng, n int) {
 	for i := 0; i < n; i++ {
+		if i%4 == 3 {
+			evObjHistory(t, r)
+			continue
+		}
 		switch r.Intn(5) {
 		case 0:
 			evCheckZoom(t, r.Pick(-1, 0, 1, 17, 34, 35, 36, 100, -(1<<40), 1<<40, r.In(-5, 40)))
